@@ -1,8 +1,12 @@
 (* C15 -- property theorems only.  Statements are about the effect language and the aliasing skeletons of
    Model/Effects.v: a program accepted by the static check `safe` leaves every object of the caller's heap
-   untouched, for ALL initial heaps and ALL argument tuples (any aliasing between arguments included). *)
+   untouched, for ALL initial heaps and ALL argument tuples (any aliasing between arguments included).
+   Round 5 (end of file): the remaining documented in-place parameters, sequences of calls, estimator classes,
+   the interruption points used by the correspondence, monotonicity of the static check in the protection, caught
+   exceptions (try / except), and the
+   refuted / partial pair of the known finding cp_normalize_inplace_false. *)
 From Coq Require Import List Arith ZArith Bool.
-From TLV Require Import Model.Effects Proofs.EffectsProofs Proofs.EffectsProofsSk Proofs.EffectsProofsGen Proofs.EffectsProofsPaths Proofs.EffectsProofsReach Proofs.EffectsProofsR5 Proofs.EffectsProofsMono Corr.C15.
+From TLV Require Import Model.Effects Proofs.EffectsProofs Proofs.EffectsProofsSk Proofs.EffectsProofsGen Proofs.EffectsProofsPaths Proofs.EffectsProofsReach Proofs.EffectsProofsR5 Proofs.EffectsProofsMono Proofs.EffectsProofsTry Corr.C15.
 Import ListNotations.
 
 (* the frame theorem *)
@@ -373,10 +377,10 @@ Example C15_frame_sequence_nonvacuous :
 Proof. exact frame_sequence_nonvacuous. Qed.
 
 (* ------------------------------------------------------------------ estimator classes: est.fit_transform(tensor), self = the
-   estimator holding the user's options (init, fixed_modes, mask / sparsity_coefficients) as attributes.  For ANY
-   decomposition body accepted by `safe`, of the caller's heap ONLY the receiver object changes (decomposition_ is
+   estimator holding the user's options (init, fixed_modes, mask / sparsity_coefficients ...) as attributes.  For ANY number
+   of option attributes and ANY decomposition body accepted by `safe`, of the caller's heap ONLY the receiver object changes (decomposition_ is
    stored on it); instances for the three order-generic families (every order, sweep count, list length, mode order). *)
-Theorem C15_estimator_fit_frame : forall (nattr : nat) (body : cmd) (ret : var), nattr = 2 \/ nattr = 3 ->
+Theorem C15_estimator_fit_frame : forall (nattr : nat) (body : cmd) (ret : var),
   safe (S nattr) body = true ->
   forall (self X : ref) (h0 : heap) (o : nat), o < length h0 -> target self <> Some o ->
   nth_error (snd (exec (sk_estimator_fit nattr body ret) (env0 [self; X], h0))) o = nth_error h0 o.
@@ -437,6 +441,37 @@ Example C15_safe_with_monotone_nonvacuous :
   flags_le [false; false; true] [true; false; true] /\ safe_with [false; false; true] sk_hals_nnls = true /\
   safe_with [true; false; true] sk_hals_nnls = true /\ safe_with [false; false; false] sk_hals_nnls = false.
 Proof. exact safe_with_mono_nonvacuous. Qed.
+
+(* ------------------------------------------------------------------ exceptions that are CAUGHT (`try: c  except: hd`): the body
+   is interrupted after n primitive effects, the handler then runs (m effects, or to completion) from the state the
+   interruption left behind.  `safe_try` = the body is accepted and the handler is accepted from the abstract state of EVERY
+   interruption point of the body (`aprefixes`).  Then nothing of the caller's heap changes - wherever the body raises and
+   wherever the handler stops.  The demo shows a body that is safe on its own but whose handler may run while the work
+   variable still designates the caller's array: rejected, and it does write into the caller's buffer. *)
+Theorem C15_frame_try : forall (c hd : cmd) (args : list ref) (h0 : heap),
+  safe_try (length args) c hd = true ->
+  forall n e2 h2, run c n (env0 args, h0) = ((e2, h2), None) ->
+  forall m o, o < length h0 -> nth_error (snd (fst (run hd m (e2, h2)))) o = nth_error h0 o.
+Proof. exact frame_try. Qed.
+Print Assumptions C15_frame_try.
+
+Theorem C15_frame_try_inplace : forall (c hd : cmd) (args : list (ref * bool)) (h0 : heap),
+  safe_try_with (map snd args) c hd = true ->
+  closed_heap h0 -> closed_args h0 (inplace_roots args) ->
+  forall n e2 h2, run c n (env0 (map fst args), h0) = ((e2, h2), None) ->
+  forall m o, o < length h0 -> ~ reach h0 (inplace_roots args) o ->
+  nth_error (snd (fst (run hd m (e2, h2)))) o = nth_error h0 o.
+Proof. exact frame_try_inplace. Qed.
+Print Assumptions C15_frame_try_inplace.
+
+Example C15_frame_try_demo :
+  safe_try 1 try_body_good try_handler = true /\
+  safe 1 try_body_bad = true /\ safe_try 1 try_body_bad try_handler = false /\
+  length (aprefixes try_body_good (aenv0 [false], [])) = 4 /\
+  snd (run try_body_bad 2 (env0 [RObj 0 [0; 1]], [OBuf [5; 7]%Z])) = None /\
+  snd (fst (run try_handler 1 (fst (run try_body_bad 2 (env0 [RObj 0 [0; 1]], [OBuf [5; 7]%Z]))))) <> [OBuf [5; 7]%Z] /\
+  firstn 1 (snd (fst (run try_handler 1 (fst (run try_body_good 2 (env0 [RObj 0 [0; 1]], [OBuf [5; 7]%Z])))))) = [OBuf [5; 7]%Z].
+Proof. exact try_demo. Qed.
 
 (* ------------------------------------------------------------------ genuine defect found in round 5 (known finding
    cp_normalize_inplace_false): CPTensor.normalize(inplace=False) is documented to return a normalised copy; the code ignores
